@@ -58,6 +58,9 @@ def native_vs_model(root, reporter, run, mr):
     dis = []
     crumbs = crumb_names(root)
     msgs = mr.child_msgs()
+    # a process killed between showing a result and sending its record has printed one more
+    # line than it delivered records: its child-side output is not compared
+    loose = {t.name for s, t in root.tests() if t.kill and t.kill[0] == "before_write"}
     if reporter == "text":
         t = L.parse_text(run.stdout)
         exp_suites = [(n, c) for n, c, depth in mr.sdone() if depth != 0 or any(c)]
@@ -71,8 +74,9 @@ def native_vs_model(root, reporter, run, mr):
             dis.append("text exception lines %s, model %s" % ([c for c, ln, m in t["exceptions"]], exp_exc))
         exp_f = []
         for name in mr.started():
-            exp_f += [crumbs[name][1:]] * msgs.get(name, "").count("F")
-        if [c for c, ln, m in t["failures"]] != exp_f:
+            if name not in loose:
+                exp_f += [crumbs[name][1:]] * msgs.get(name, "").count("F")
+        if [c for c, ln, m in t["failures"] if c[-1] not in loose] != exp_f:
             dis.append("text failure lines %s, model %s" % ([c for c, ln, m in t["failures"]], exp_f))
     elif reporter == "quiet":
         t = L.parse_text(run.stdout)
@@ -96,18 +100,18 @@ def native_vs_model(root, reporter, run, mr):
         exp_err = [cr[-1] for cr, sg in mr.incompletes()]
         if c["errors"] != exp_err:
             dis.append("cute #error lines %s, model %s" % (c["errors"], exp_err))
-        exp_fail = [n for n in mr.started() if "F" in msgs.get(n, "")]
-        if c["failures"] != exp_fail:
+        exp_fail = [n for n in mr.started() if "F" in msgs.get(n, "") and n not in loose]
+        if [n for n in c["failures"] if n not in loose] != exp_fail:
             dis.append("cute #failure lines %s, model %s" % (c["failures"], exp_fail))
     elif reporter in ("xml", "libxml"):
         try:
             x = L.parse_xml_files(run.files)
         except ET.ParseError as ex:
             return ["XML output not well-formed: %s" % ex]
-        got = sorted((c[0], c[2], c[3], c[4]) for f in x.values() for c in f["cases"])
+        got = sorted((c[0], c[2] if c[0] not in loose else 0, c[3], c[4]) for f in x.values() for c in f["cases"])
         inc = {cr[-1] for cr, sg in mr.incompletes()}
         sk = {cr[-1] for cr in mr.skipshown()}
-        exp = sorted((n, msgs.get(n, "").count("F"), 1 if n in inc else 0, 1 if n in sk else 0)
+        exp = sorted((n, msgs.get(n, "").count("F") if n not in loose else 0, 1 if n in inc else 0, 1 if n in sk else 0)
                      for n in mr.started())
         if got != exp:
             dis.append("%s testcases (name, failures, errors, skipped) %s, model %s" % (reporter, got, exp))
@@ -116,9 +120,12 @@ def native_vs_model(root, reporter, run, mr):
         exp_p = []
         exp_f = []
         for n in mr.started():
-            exp_p += [n] * msgs.get(n, "").count("P")
-            exp_f += [n] * msgs.get(n, "").count("F")
+            if n not in loose:
+                exp_p += [n] * msgs.get(n, "").count("P")
+                exp_f += [n] * msgs.get(n, "").count("F")
         exp_i = [cr[-1] for cr, sg in mr.incompletes()]
+        c["passed"] = [n for n in c["passed"] if n not in loose]
+        c["failed"] = [n for n in c["failed"] if n not in loose]
         if sorted(c["passed"]) != sorted(exp_p) or sorted(c["failed"]) != sorted(exp_f) or \
            sorted(c["incomplete"]) != sorted(exp_i):
             dis.append("cdash entries passed=%s failed=%s incomplete=%s, model %s %s %s" % (
